@@ -13,8 +13,19 @@ Engine T x G.  Two families of records are enumerated exhaustively:
 * 'sin' cases: every on-grid sinusoid sin(2 pi k0 t/N + phase), 2 <= k0 <= 0.75 N/2, for every
   n on the length menu; same sub-claims plus the dominant-frequency trace for both dt.
 
+* 'long' cases: one deterministic mixed record (non-zero mean and Nyquist component) for every length of a
+  ladder up to the LARGEST length of the quantifier (powers of two +-1, the lengths just above 1000, 1023, 1024),
+  and sinusoid cases with the smallest / largest k0 at the top lengths (matrix form of the reference).
+
+Containers: float64, int64, int16 and uint8 with large steps, list, tuple, and the float64 record scaled by
+1e-9 / 1e+6 (the transform is linear: the expectation scales with the values passed).
+Call sequences: the same call repeated after the caller overwrote the returned array; A, partners, A again;
+the object-level dominant-frequency trace on objects with a history (another record of another length held and
+traced before, reset_values, the transform restored on the object by the caller as the library's own tests do,
+the returned trace overwritten by the caller, deprecated statistics methods called in between).
+
 The reference shares nothing with eqsig's formulation (no FFT, no Toeplitz matrix): scalar
-sums for N <= 128, and for the three long thorough lengths the same sum written as one
+sums for N <= 128, and for the long lengths the same sum written as one
 matrix product (witnessed against the scalar loops on every sinusoid record with n <= 64).
 """
 import cmath
@@ -33,6 +44,12 @@ COEFS = ((1, 1), (2, -3))
 CASE_TIMEOUT = 300
 
 IMPLS = (('transform', 'transform'), ('scipy', 'transform_w_scipy_fft'))
+LONG_QUICK = (65, 127, 128, 129, 255, 256, 257, 511, 512, 513, 1001, 1002, 1003, 1023, 1024)
+LONG_THOROUGH = LONG_QUICK + (100, 200, 300, 400, 500, 600, 700, 800, 900, 1000, 1004, 1021, 1022)
+CONTAINERS = ['float64', 'int64', 'int16 x15000', 'uint8 x125 (words without -1)', 'list', 'tuple', 'float64 x1e-9', 'float64 x1e+6']
+AMPS = (1.0, 1e-9, 1e6)
+EXTRA_DTS = (1e-6, 40.0)         # fresh-object trace only
+CLASSES = ('Signal', 'AccSignal')
 
 
 def k0_range(n):
@@ -46,6 +63,8 @@ def build(tier, seed):
     sin_small = list(range(8, 65))
     sin_loop_extra = [] if quick else [96, 128]
     sin_matrix = [] if quick else [256, 512, 1024]
+    long_n = LONG_QUICK if quick else LONG_THOROUGH
+    top_n = [1003, 1024]
     cases = []
     for w in words(SIGMA, 4, lw):
         cases.append({'kind': 'word', 'w': list(w), 'pairs': 'all' if len(w) <= lpair else 'menu'})
@@ -56,26 +75,46 @@ def build(tier, seed):
         for k0 in k0_range(n):
             for ph in PHASES:
                 cases.append({'kind': 'sin', 'n': n, 'k0': k0, 'phases': [ph], 'ref': 'matrix'})
+    # the expensive cases (matrix-form reference) are spread over the front of the list, one per pool chunk
+    heavy = [{'kind': 'long', 'n': n} for n in reversed(long_n)]
+    for n in top_n:
+        for k0 in (k0_range(n)[0], k0_range(n)[-1]):
+            c = {'kind': 'sin', 'n': n, 'k0': k0, 'phases': [0.5], 'ref': 'matrix'}
+            if c not in cases:
+                heavy.append(c)
+    for i, c in enumerate(heavy):
+        cases.insert(min(len(cases), 3 + 70 * i), c)
     return {
         'cases': cases,
         'rule': 'word family: all words over {-1,0,2} of length 4..%d (one pool case per word) x {transform, '
                 'transform_w_scipy_fft} x {float64, int64, list}; linearity on all unordered pairs of words of equal '
                 'length <= %d and on a 2-partner menu above, coefficients %s; sinusoid family: every n in %s, every k0 '
                 'with 2 <= k0 <= 0.75*n/2, phases %s, dt in %s (reference: scalar triple loop for n <= 128, matrix '
-                'form of the same sum above); non-trivial = even truncation of the record is not constant'
+                'form of the same sum above) + k0 in {min, max}, phase 0.5 at n in %s; long family: one mixed record for every n '
+                'in %s (matrix form); containers %s; trace on {Signal, AccSignal} objects: fresh, amplitudes %s, and the history '
+                'sequence of the module docstring; non-trivial = even truncation of the record is not constant'
                 % (lw, lpair, list(COEFS), '8..64' + ('' if quick else ' + [96,128,256,512,1024]'),
-                   list(PHASES), list(DTS)),
+                   list(PHASES), list(DTS), top_n, list(long_n), CONTAINERS, list(AMPS)),
         'bounds': {'alphabet': SIGMA, 'word_len': [4, lw], 'all_pairs_up_to_len': lpair,
-                   'sin_n': [8, 64] if quick else [8, 64, 96, 128, 256, 512, 1024], 'phases': PHASES, 'dt': DTS,
-                   'k0': '2 <= k0 <= 0.75*n/2', 'middle_half': 'N/4 <= j < 3N/4',
+                   'sin_n': [8, 64] if quick else [8, 64, 96, 128, 256, 512, 1024], 'phases': PHASES, 'dt': DTS, 'extra_dt_fresh_trace': EXTRA_DTS,
+                   'k0': '2 <= k0 <= 0.75*n/2', 'middle_half': 'N/4 <= j < 3N/4', 'long_n': list(long_n),
+                   'top_sinusoid_n': top_n, 'containers': CONTAINERS, 'amplitudes': list(AMPS),
                    'tol': {'definition': 1e-10, 'agree': 1e-10, 'linear': 1e-10, 'marginal': 1e-10,
                            'inverse': 1e-12, 'maxfreq': 1e-9}},
         'required_classes': ['odd-n', 'even-n', 'sin-odd-n', 'sin-even-n', 'dt=0.01', 'dt=0.5', 'int-input',
                              'list-input', 'linear-all-pairs', 'linear-menu', 'nonzero-mean', 'nonzero-nyquist',
-                             'k0-min', 'k0-max', 'definition-on-sinusoid', 'oracle-witness'],
-        'assumptions': ['word records: sample values in {-1,0,2}, lengths above the bound not examined',
+                             'k0-min', 'k0-max', 'definition-on-sinusoid', 'oracle-witness', 'max-length-1024',
+                             'length-above-1000', 'long-odd-n', 'long-pow2', 'i16-input', 'u8-input', 'tuple-input',
+                             'scaled-1e-09', 'scaled-1e+06', 'a-b-a', 'returned-array-overwritten', 'trace-Signal',
+                             'trace-AccSignal', 'trace-after-other-length', 'trace-transform-restored-by-caller',
+                             'trace-returned-array-overwritten', 'trace-amplitude-1e-09', 'trace-amplitude-1e+06'],
+        'assumptions': ['word records: sample values in {-1,0,2} (x 15000 as int16, x 125 as uint8 for words without -1, x 1e-9 and '
+                        'x 1e+6 as float64); lengths above the word bound only through the sinusoid and long families',
+                        'float32 records are not examined (the unchanged tree transforms them in single precision)',
+                        'an object whose record was replaced carries either no transform (clear_cache removed it) or the '
+                        'transform of its current record, stored in asig.swtf by the caller',
                         'sinusoid records: on-grid frequencies only (k0 integer relative to the even truncation N)',
-                        'dt only on the menu (dt enters get_max_stockwell_freq only)',
+                        'dt only on the menu + {1e-6, 40} for the trace of a fresh object (dt enters get_max_stockwell_freq only)',
                         'tolerances are relative to max(peak |record|, peak |expected|)',
                         'middle half of the record = sample indices j with N/4 <= j < 3N/4'],
     }
@@ -156,6 +195,10 @@ def ref_inverse(h):
 
 
 # ------------------------------------------------------------------------------------------
+CONTAINER_CLASS = {'i64': 'int-input', 'list': 'list-input', 'i16': 'i16-input', 'u8': 'u8-input', 'tuple': 'tuple-input',
+                   'f64*1e-09': 'scaled-1e-09', 'f64*1e+06': 'scaled-1e+06'}
+
+
 def cmax(a):
     try:
         a = np.asarray(a)
@@ -166,15 +209,17 @@ def cmax(a):
 
 def check_one_record(r, sub, x_float, containers, want, F, do_def):
     """All single-record sub-claims.  x_float: float64 record (length n).  containers: list of
-    (name, factory) giving the argument objects.  want: expected (N/2, N) array or None.
-    F: un-normalised DFT coefficients F[0..N-1] of the even truncation.  Returns {impl: output on float64}."""
+    (name, factory, factor): the argument object holds factor * x_float.  want: expected (N/2, N) array for x_float or
+    None (the definition is linear: factor * want is expected).  F: un-normalised DFT coefficients F[0..N-1] of the even
+    truncation.  Returns {impl: output on float64}."""
     n = len(x_float)
     N = n // 2 * 2
     h = [float(v) for v in x_float[:N]]
     peak = max([abs(v) for v in h] + [0.0])
+    want_m1 = np.array([F[k].conjugate() for k in range(N // 2, 0, -1)], dtype=complex)
     outs = {}
     for iname, attr in IMPLS:
-        for cname, make in containers:
+        for cname, make, fac in containers:
             s2 = dict(sub, impl=iname, input=cname)
             arg = make()
             snap = snapshot(arg)
@@ -186,10 +231,8 @@ def check_one_record(r, sub, x_float, containers, want, F, do_def):
             ok, out = r.call('definition', s2, fn, arg)
             r.expect('unchanged', s2, snapshot(arg) == snap, 'input container modified by the transform',
                      observed=arg, expected=list(x_float))
-            if cname == 'i64':
-                r.cls('int-input')
-            if cname == 'list':
-                r.cls('list-input')
+            if cname in CONTAINER_CLASS:
+                r.cls(CONTAINER_CLASS[cname])
             if not ok:
                 continue
             try:
@@ -201,16 +244,30 @@ def check_one_record(r, sub, x_float, containers, want, F, do_def):
                      'result is not an (n/2) x n complex array (n = even truncation)', observed=(shp, is_c),
                      expected=((N // 2, N), True))
             if want is not None and do_def:
-                r.expect_close('definition', s2, out, want, rtol=1e-10, scale=max(peak, cmax(want)))
+                r.expect_close('definition', s2, out, fac * want if fac != 1 else want, rtol=1e-10,
+                               scale=fac * max(peak, cmax(want)))
             # Fourier marginal: sum over time of row (frequency k) = conj(F[k]), rows k = N/2..1
-            want_m = np.array([F[k].conjugate() for k in range(N // 2, 0, -1)], dtype=complex)
             try:
                 got_m = np.sum(np.asarray(out), axis=1)
             except Exception:
                 got_m = None
-            r.expect_close('marginal', s2, got_m, want_m, rtol=1e-10, scale=max(peak, cmax(want_m)))
+            r.expect_close('marginal', s2, got_m, fac * want_m1, rtol=1e-10, scale=fac * max(peak, cmax(want_m1)))
             if cname == 'f64':
                 outs[iname] = out
+                # the same call again after the caller overwrote what it was given: same result
+                try:
+                    keep = np.array(out, copy=True)
+                    out[...] = 1e30
+                except Exception:
+                    keep = None
+                if keep is not None:
+                    outs[iname] = keep
+                    r.cls('returned-array-overwritten')
+                    ok, out2 = r.call('definition', dict(s2, step='again-after-result-overwritten'), fn, make())
+                    if ok:
+                        r.transitions += 1
+                        r.expect_close('same-call-same-result', s2, out2, keep, rtol=1e-13, scale=max(peak, cmax(keep)),
+                                       what='second call, first result overwritten by the caller')
     # both implementations agree
     if 'transform' in outs and 'scipy' in outs:
         r.transitions += 1
@@ -223,10 +280,26 @@ def check_one_record(r, sub, x_float, containers, want, F, do_def):
     if abs(nyq) > 1e-9 * max(peak, 1e-300):
         r.cls('nonzero-nyquist')
     for iname in outs:
-        s2 = dict(sub, impl=iname)
-        ok, inv = r.call('inverse', s2, stockwell.itransform, outs[iname])
-        if ok:
-            r.expect_close('inverse', s2, inv, np.array(inv_want, dtype=float), rtol=1e-12, scale=peak)
+        for fac in (1.0,) + tuple(a for a in AMPS if a != 1.0):
+            s2 = dict(sub, impl=iname) if fac == 1.0 else dict(sub, impl=iname, scaled=fac)
+            try:
+                stock = np.array(outs[iname], copy=True) * fac
+                snap = stock.copy()
+            except Exception:
+                continue
+            ok, inv = r.call('inverse', s2, stockwell.itransform, stock)
+            r.expect('unchanged', dict(s2, fn='itransform'), np.array_equal(stock, snap), 'transform array modified by itransform')
+            if ok:
+                r.expect_close('inverse', s2, inv, fac * np.array(inv_want, dtype=float), rtol=1e-12, scale=fac * peak)
+                if fac == 1.0:
+                    try:
+                        keep = np.array(inv, copy=True)
+                        inv[...] = 1e30
+                    except Exception:
+                        continue
+                    ok, inv2 = r.call('inverse', dict(s2, step='again-after-result-overwritten'), stockwell.itransform, stock)
+                    if ok:
+                        r.expect_close('same-call-same-result', dict(s2, fn='itransform'), inv2, keep, rtol=1e-13, scale=peak)
     return outs
 
 
@@ -280,8 +353,14 @@ def run_word(case):
     S = ref_stockwell_loop(h)
     want = expected_from_S(S, N)
     F = ref_dft(h, False)
-    containers = [('f64', lambda: np.array(w, dtype=float)), ('i64', lambda: np.array(w, dtype=np.int64)),
-                  ('list', lambda: list(w))]
+    containers = [('f64', lambda: np.array(w, dtype=float), 1), ('i64', lambda: np.array(w, dtype=np.int64), 1),
+                  ('list', lambda: list(w), 1), ('tuple', lambda: tuple(w), 1),
+                  ('i16', lambda: np.array([15000 * v for v in w], dtype=np.int16), 15000)]
+    if min(w) >= 0:
+        containers.append(('u8', lambda: np.array([125 * v for v in w], dtype=np.uint8), 125))
+    for a in AMPS:
+        if a != 1.0:
+            containers.append(('f64*%.0e' % a, (lambda a=a: a * np.array(w, dtype=float)), a))
     outs = check_one_record(r, sub, x, containers, want, F, True)
     # linearity
     if case.get('pairs') == 'all':
@@ -292,6 +371,41 @@ def run_word(case):
         r.cls('linear-menu', len(partners))
     for p in partners:
         check_linearity(r, {'w': w, 'y': p}, x, np.array(p, dtype=float), outs)
+    # A, partners (same length, among them records with the same end values), A again
+    if partners:
+        r.cls('a-b-a')
+        for iname, attr in IMPLS:
+            s2 = dict(sub, impl=iname, input='f64', step='again-after-partners')
+            ok, out = r.call('definition', s2, getattr(stockwell, attr), np.array(w, dtype=float))
+            if ok:
+                r.transitions += 1
+                r.expect_close('definition', s2, out, want, rtol=1e-10, scale=max(float(max(abs(v) for v in w)), cmax(want)))
+    return r
+
+
+def mixed(n):
+    return [SIGMA[(t * t + t // 2) % 3] for t in range(n)]
+
+
+def run_long(case):
+    """One mixed record of a long length: shape, definition, agreement, marginal, inverse (matrix form of the reference)."""
+    r = Res()
+    n = int(case['n'])
+    N = n // 2 * 2
+    w = mixed(n)
+    x = np.array(w, dtype=float)
+    r.nontrivial += 1
+    r.cls('long-odd-n' if n % 2 else 'long-even-n')
+    if n == 1024:
+        r.cls('max-length-1024')
+    if 1000 < n < 1024:
+        r.cls('length-above-1000')
+    if n & (n - 1) == 0:
+        r.cls('long-pow2')
+    want, F = ref_stockwell_matrix([float(v) for v in w[:N]])
+    F = [complex(v) for v in F]
+    check_one_record(r, {'long': n, 'rec': 'mixed'}, x, [('f64', lambda: x.copy(), 1), ('i64', lambda: np.array(w, dtype=np.int64), 1)],
+                     want, F, True)
     return r
 
 
@@ -331,39 +445,137 @@ def run_sin(case):
             want, F = ref_stockwell_matrix(h)
             F = [complex(v) for v in F]
         r.cls('definition-on-sinusoid')
-        outs = check_one_record(r, sub, x, [('f64', lambda: x.copy())], want, F, True)
+        outs = check_one_record(r, sub, x, [('f64', lambda: x.copy(), 1)], want, F, True)
         f64 = outs.get('transform')
-        for dt in DTS:
+        light = case['ref'] != 'loop'       # long lengths: fresh objects and one history only
+        for dt in DTS + EXTRA_DTS:
             r.cls('dt=%s' % dt)
             s2 = dict(sub, dt=dt)
             f0 = k0 / (N * dt)
             wantf = np.full(hi - lo, f0)
-            r.states += 1
+            for cname in CLASSES:
+                for amp in AMPS:
+                    if (light or dt in EXTRA_DTS) and (amp != 1.0):
+                        continue
+                    s3 = dict(s2, cls=cname) if amp == 1.0 else dict(s2, cls=cname, amplitude=amp)
+                    r.states += 1
+                    r.cls('trace-' + cname)
+                    if amp != 1.0:
+                        r.cls('trace-amplitude-%.0e' % amp)
 
-            def trace():
-                s = eqsig.AccSignal(x.copy(), dt)      # fresh object: the function caches asig.swtf
-                return stockwell.get_max_stockwell_freq(s)
-            ok, mf = r.call('maxfreq', s2, trace)
-            if ok:
-                try:
-                    got = np.asarray(mf)[lo:hi]
-                except Exception:
-                    got = None
-                r.expect_close('maxfreq', s2, got, wantf, rtol=1e-9)
+                    def trace():
+                        s = getattr(eqsig, cname)(amp * x, dt)      # fresh object: the function caches asig.swtf
+                        return stockwell.get_max_stockwell_freq(s)
+                    ok, mf = r.call('maxfreq', s3, trace)
+                    if ok:
+                        check_trace(r, 'maxfreq', s3, mf, lo, hi, wantf)
+                if dt in DTS:
+                    trace_history(r, dict(s2, cls=cname), cname, x, n, k0, ph, dt, light)
             if f64 is not None:
                 ok, mf = r.call('maxfreq.tifq', s2, stockwell.get_max_tifq_vals_freq, f64, dt)
                 if ok:
-                    try:
-                        got = np.asarray(mf)[lo:hi]
-                    except Exception:
-                        got = None
-                    r.expect_close('maxfreq.tifq', s2, got, wantf, rtol=1e-9)
+                    check_trace(r, 'maxfreq.tifq', s2, mf, lo, hi, wantf)
     return r
+
+
+def check_trace(r, claim, sub, mf, lo, hi, wantf):
+    try:
+        got = np.asarray(mf)[lo:hi]
+    except Exception:
+        got = None
+    return r.expect_close(claim, sub, got, wantf, rtol=1e-9)
+
+
+def middle(n):
+    N = n // 2 * 2
+    return -(-N // 4), -(-3 * N // 4)
+
+
+def exercise(s):
+    """Read lazy properties / call the auxiliary and deprecated public methods that store results on the object.
+    Whether these succeed is not this property's business."""
+    for name in ('fa_spectrum', 'smooth_fa_spectrum', 'velocity', 'displacement', 'pga'):
+        try:
+            getattr(s, name)
+        except Exception:
+            pass
+    for name in ('generate_cumulative_stats', 'generate_duration_stats', 'generate_peak_values'):
+        try:
+            getattr(s, name)()
+        except Exception:
+            pass
+
+
+def trace_history(r, sub, cname, x, n, k0, ph, dt, light):
+    """get_max_stockwell_freq on ONE object through a history.  At every step the object holds an in-domain sinusoid and
+    either no transform (reset_values -> clear_cache removed it) or the transform of its current record put there by the
+    caller (asig.swtf = stockwell.transform(asig.values), as the library's own tests do): the trace must be that of the record
+    held now."""
+    N = n // 2 * 2
+    ks = k0_range(n)
+    ky = ks[0] if k0 != ks[0] else ks[-1]
+    y = sin_record(n, ky, ph)                   # same length, another frequency
+    nz = n + 5                                  # another length (other parity)
+    kz = k0_range(nz)[-1]
+    z = sin_record(nz, kz, ph)
+    Nz = nz // 2 * 2
+    fx, fy, fz = k0 / (N * dt), ky / (N * dt), kz / (Nz * dt)
+    state = {}
+
+    def prepare():
+        s = getattr(eqsig, cname)(z.copy(), dt)
+        exercise(s)
+        stockwell.get_max_stockwell_freq(s)
+        state['s'] = s
+    ok, _ = r.call('maxfreq', dict(sub, step='prepare'), prepare)
+    if not ok:
+        return
+    s = state['s']
+
+    def restore():
+        s.swtf = stockwell.transform(s.values)
+
+    steps = [('reset_values(x)', lambda: s.reset_values(x.copy()), n, fx, 'trace-after-other-length'),
+             ('again-after-trace-overwritten', None, n, fx, 'trace-returned-array-overwritten'),
+             ('reset_values(y)+caller-restores-swtf', lambda: (s.reset_values(y.copy()), restore()), n, fy,
+              'trace-transform-restored-by-caller'),
+             ('reset_values(x)+caller-restores-swtf', lambda: (s.reset_values(x.copy()), restore()), n, fx, None)]
+    if not light:
+        steps += [('after-statistics', lambda: exercise(s), n, fx, None),
+                  ('reset_values(z)+caller-restores-swtf', lambda: (s.reset_values(z.copy()), restore()), nz, fz, None),
+                  ('reset_values(x)-again', lambda: s.reset_values(x.copy()), n, fx, None)]
+    keep = None
+    for step, change, nn, f, cl in steps:
+        s3 = dict(sub, step=step)
+        if cl:
+            r.cls(cl)
+        if change is not None:
+            ok, _ = r.call('maxfreq', s3, change)
+            if not ok:
+                return
+        r.states += 1
+        r.transitions += 1
+        ok, mf = r.call('maxfreq', s3, stockwell.get_max_stockwell_freq, s)
+        if not ok:
+            continue
+        lo, hi = middle(nn)
+        check_trace(r, 'maxfreq', s3, mf, lo, hi, np.full(hi - lo, f))
+        if step == 'reset_values(x)':
+            try:
+                keep = np.array(mf, copy=True)
+                mf[...] = -1.0           # e.g. np.clip(trace, None, fmax, out=trace) by the caller
+            except Exception:
+                keep = None
+        elif nn == n and f == fx and keep is not None:
+            r.expect_close('same-call-same-result', s3, mf, keep, rtol=1e-12,
+                           what='trace of the same record on the same object vs the first one (private copy)')
 
 
 def run_case(case):
     if case['kind'] == 'word':
         return run_word(case)
+    if case['kind'] == 'long':
+        return run_long(case)
     return run_sin(case)
 
 
@@ -376,6 +588,25 @@ def snippet(case, v):
                 "print(a.shape, np.max(np.abs(a - b)))\nprint(a)\n"
                 "print('row sums', a.sum(axis=1), 'conj fft', np.conj(np.fft.fft(x[:len(x)//2*2]))[1:len(x)//2+1][::-1])\n"
                 "print('inverse', st.itransform(a))\n" % (sub,))
+    if case['kind'] == 'long':
+        return ("import numpy as np\nfrom eqsig import stockwell as st\n"
+                "n = %d; x = np.array([(-1, 0, 2)[(t * t + t // 2) %% 3] for t in range(n)], float); N = n // 2 * 2\n"
+                "a = st.transform(x); b = st.transform_w_scipy_fft(x)\n"
+                "print(a.shape, 'max |transform - transform_w_scipy_fft|', np.max(np.abs(a - b)))\n"
+                "print('rows that are identically zero:', np.where(~a.any(axis=1))[0])\n"
+                "print('row sums vs conj fft', np.max(np.abs(a.sum(axis=1) - np.conj(np.fft.fft(x[:N]))[1:N // 2 + 1][::-1])))\n"
+                "h = x[:N] - x[:N].mean(); h = h - (h * (-1.0) ** np.arange(N)).mean() * (-1.0) ** np.arange(N)\n"
+                "print('inverse error', np.max(np.abs(st.itransform(a) - h)))\n" % (case['n'],))
+    if 'step' in sub:
+        return ("import numpy as np, eqsig\nfrom eqsig import stockwell as st\n"
+                "sub = %r\nn, k0, ph, dt = sub['n'], sub['k0'], sub['phase'], sub['dt']; N = n // 2 * 2\n"
+                "x = np.sin(2 * np.pi * k0 * np.arange(n) / N + ph)\n"
+                "z = np.sin(2 * np.pi * 2 * np.arange(n + 5) / ((n + 5) // 2 * 2) + ph)\n"
+                "s = getattr(eqsig, sub.get('cls', 'AccSignal'))(z, dt); st.get_max_stockwell_freq(s)     # another record first\n"
+                "s.reset_values(x); tr = st.get_max_stockwell_freq(s); print('expected', k0 / (N * dt), tr[-(-N // 4):-(-3 * N // 4)])\n"
+                "tr[...] = -1.0; print('after the caller overwrote the trace:', st.get_max_stockwell_freq(s)[-(-N // 4):-(-3 * N // 4)])\n"
+                "s.reset_values(z); s.swtf = st.transform(s.values); s.reset_values(x); s.swtf = st.transform(s.values)\n"
+                "print('after reset_values + caller-restored swtf:', st.get_max_stockwell_freq(s)[-(-N // 4):-(-3 * N // 4)])\n" % (sub,))
     return ("import numpy as np, eqsig\nfrom eqsig import stockwell as st\n"
             "sub = %r\nn, k0, ph = sub['n'], sub['k0'], sub['phase']; N = n // 2 * 2; dt = sub.get('dt', 0.01)\n"
             "x = np.sin(2 * np.pi * k0 * np.arange(n) / N + ph)\n"
